@@ -237,7 +237,7 @@ class C05(Engine):
 			pool = pools.fixed_pool(which)
 			mods = pools.core(pool)
 			sweeps = [{'op': 'sweep', 'cls': cls, 'm': m, 'cap': 30 if quick else 400} for cls in ('symbols', 'tree') for m in ((mods[0], mods[-1]) if quick else mods)]
-			cases.append({'pool': pool, 'kind': 'sweep', 'ops': [op_run()] + sweeps + ([] if quick else [{'op': 'sweep', 'cls': 'parser', 'cap': 16}])})
+			cases.append({'pool': pool, 'kind': 'sweep', 'ops': [op_run()] + sweeps})
 		return cases
 
 	def generate(self, rng: random.Random, index: int) -> dict[str, Any]:
